@@ -56,8 +56,10 @@ impl Formatter {
             first = false;
         }
 
-        // Ensure file ends with newline
-        self.writer.newline();
+        // Ensure file ends with newline (every declaration already ends its own last line)
+        if first {
+            self.writer.newline();
+        }
     }
 
     // ========================================================================
